@@ -204,7 +204,7 @@ REGISTRY = {
         "level": "proof",
         "modules": ["SkaModel.Props.C01", "SkaModel.Props.C01Iter", "SkaModel.Props.C01Dict"],
         "gen": ["C01"],
-        "cli": [cli.c01_cli],
+        "cli": [cli.c01_cli, cli.c02_deep_cli],
         "rule": "record sets aimed at window boundaries (lengths k-1..k+2, N at 0..k+2 from either end, repeats, self-rc arms, mixed case), all 30 k, both strands, both widths; exhaustive {A,C,G,T,N}^<=L at k=5/7; non-trivial = distinct case lines yielding at least one k-mer",
         "trusted_base": COMMON_TRUST,
         "assumptions": [EXTERNAL],
